@@ -7,6 +7,7 @@ import RQ.Props.C08
 import Mathlib.Tactic.SplitIfs
 import Mathlib.Tactic.Linarith
 import Mathlib.Tactic.Ring
+import RQ.Lemmas.WorldJ
 namespace RQ.Props.C14
 open RQ.Q
 
@@ -384,5 +385,28 @@ theorem settlement_idempotent_partial (a : Acct) (i : STInput) (hr : a.mgmtRate 
 example : let a : Acct := { totalCash := 1000, frozen := 0, liabilities := 0, pending := [], mgmtFees := 0, mgmtRate := 1/100, finRate := 0, holdings := [] }
     let i : STInput := ⟨fun _ => .none, fun _ => none, fun _ => false, false⟩
     ((a.onSettlement i).totalCash, ((a.onSettlement i).onSettlement i).totalCash) = (990, 9801/10) := by decide +kernel
+
+
+/-! ### the composed world (`RQ/Model/World.lean`) -/
+
+/-- **resume = uninterrupted, for the trading core at a day boundary**: what a restored run has lost of the core's state — the matcher's per-bar
+accumulators and the cost deciders' per-order minimum-commission map are not persisted — does not matter: stop with empty books (after any
+close), continue with the morning and orders whose ids the interrupted run never used; if the deciders' shared entry for system trades
+(order id `None`, dividend reinvestment) is untouched, the continuation from the restored state publishes exactly the events of the
+uninterrupted continuation and ends in a state that agrees with it on everything but stale fee-map entries. -/
+theorem world_resume_transparent (w : World) (today : Nat) (tax : R) (mkt : List DayIns) (rest : List WIn)
+    (ho : w.openOrders = []) (ha : w.auctionOrders = [])
+    (hfresh : ∀ id ∈ RQ.Lemmas.WorldC.submittedIds rest, ∀ t, ∀ e ∈ w.commMap, e.1 ≠ (some id, t))
+    (hnone : ∀ t, w.commRem (none, t) = w.cfg.stockCost.minC) :
+    let ins := WIn.preBeforeTrading today tax mkt :: WIn.beforeTrading :: rest
+    (w.run ins).2 = ((RQ.Lemmas.WorldJ.forget w).run ins).2 ∧
+    RQ.Lemmas.WorldJ.Agree (RQ.Lemmas.WorldJ.futureKeys rest) (w.run ins).1 ((RQ.Lemmas.WorldJ.forget w).run ins).1 :=
+  RQ.Lemmas.WorldJ.resume_transparent w today tax mkt rest ho ha hfresh hnone
+
+/-- the hypothesis on the `None` entry is exactly finding F27 (recorded): a partly used shared entry is lost by a restore and the next
+reinvestment trade is charged differently (kernel-checked witness: fee 0 in the running world, 5 in the restored one) -/
+theorem world_resume_needs_untouched_none_entry :
+    ∃ (w : World) (wi : WIns), (w.tradeFee wi none true .open_ 100 10 0).1 ≠ ((RQ.Lemmas.WorldJ.forget w).tradeFee wi none true .open_ 100 10 0).1 :=
+  RQ.Lemmas.WorldJ.none_entry_matters
 
 end RQ.Props.C14
